@@ -91,6 +91,7 @@ pub struct Counters {
     pub p_same_end_multi: u64,
     pub p_multibyte_match: u64,
     pub p_inspect: u64,
+    pub p_match_beyond_64k: u64,
 }
 
 impl Counters {
@@ -101,7 +102,7 @@ impl Counters {
             f_truncate_after_match, f_truncate_inside_occurrence, f_split_inside_char,
             f_split_inside_occurrence, f_cancel, f_producer_ahead, f_hint_truthful_nonzero,
             p_match_midstream, p_interleaved_handles, p_multi_block, p_block_evicted,
-            p_same_end_multi, p_multibyte_match, p_inspect
+            p_same_end_multi, p_multibyte_match, p_inspect, p_match_beyond_64k
         );
     }
 }
@@ -260,6 +261,9 @@ impl Iterator for SimSource {
         }
     }
 }
+
+/// Above this many pulled bytes the online prefix comparison is skipped (it is quadratic).
+const ONLINE_L3_LIMIT: usize = 4096;
 
 fn is_prefix(a: &[Mt], b: &[Mt]) -> bool {
     a.len() <= b.len() && a == &b[..a.len()]
@@ -480,22 +484,33 @@ fn exec<'a>(
                             // L3 online: what was returned so far is what the slice entry point
                             // returns for the bytes pulled so far, up to matches still pending at
                             // this very end position.
-                            let seen = w.streams[hspec.stream].content[..pulls].to_vec();
-                            if seen[m.s..m.e].iter().any(|b| *b >= 0x80) {
-                                w.c.p_multibyte_match += 1;
+                            if m.s > m.e {
+                                drop(w);
+                                viol!("same-matches", "handle {handle}: match with start {} beyond its end {}", m.s, m.e);
                             }
-                            drop(w);
-                            if variant == Variant::Charwise && std::str::from_utf8(&seen).is_err() {
-                                viol!("same-matches", "handle {handle}: match end {} is not a character boundary", m.e);
-                            }
-                            let want = pma::search(pma, hspec.method, &seen);
-                            let got = &hs[handle].got;
-                            if !is_prefix(got, &want) || want[got.len()..].iter().any(|x| x.e != pulls) {
-                                viol!(
-                                    "same-matches",
-                                    "handle {handle} ({:?}): after {pulls} bytes iterator returned {:?}, slice search of the same bytes gives {:?}",
-                                    hspec.method, got, want
-                                );
+                            if pulls <= ONLINE_L3_LIMIT {
+                                let seen = w.streams[hspec.stream].content[..pulls].to_vec();
+                                if seen[m.s..m.e].iter().any(|b| *b >= 0x80) {
+                                    w.c.p_multibyte_match += 1;
+                                }
+                                drop(w);
+                                if variant == Variant::Charwise && std::str::from_utf8(&seen).is_err() {
+                                    viol!("same-matches", "handle {handle}: match end {} is not a character boundary", m.e);
+                                }
+                                let want = pma::search(pma, hspec.method, &seen);
+                                let got = &hs[handle].got;
+                                if !is_prefix(got, &want) || want[got.len()..].iter().any(|x| x.e != pulls) {
+                                    viol!(
+                                        "same-matches",
+                                        "handle {handle} ({:?}): after {pulls} bytes iterator returned {:?}, slice search of the same bytes gives {:?}",
+                                        hspec.method, got, want
+                                    );
+                                }
+                            } else {
+                                // long streams: the (quadratic) prefix comparison is done once, at the end
+                                if pulls > 65_536 {
+                                    w.c.p_match_beyond_64k += 1;
+                                }
                             }
                         }
                     }
@@ -593,6 +608,9 @@ pub fn generate(seed: u64) -> Scenario {
         wide_max: 400,
         tiny: false, big_cp_of_8: 3 };
     let (spec, _class) = gen::gen_spec(&mut rng, &opts);
+    if rng.chance(1, 160) {
+        return generate_long(&mut rng, spec);
+    }
     let nstreams = *rng.pick(&[1usize, 1, 1, 2, 3]);
     let mut streams = vec![];
     for _ in 0..nstreams {
@@ -695,6 +713,60 @@ pub fn generate(seed: u64) -> Scenario {
         handles,
         events,
     }
+}
+
+/// A long stream (crosses 2^16 bytes, sometimes 2^17): positions that do not fit a narrow
+/// counter, buffers that fill up. Delivered in large bursts, polled in bursts.
+fn generate_long(rng: &mut Rng, spec: Spec) -> Scenario {
+    let target = *rng.pick(&[66_000usize, 70_000, 131_500, 140_000]);
+    // mostly non-matching filler with occurrences planted sparsely, so that the match list
+    // stays short and some matches lie beyond the 2^16 / 2^17 boundaries
+    let utf8 = spec.patterns.iter().all(|p| std::str::from_utf8(p).is_ok());
+    let filler: &[u8] = if utf8 { "q試Z".as_bytes() } else { &[0x11, 0xee, b'Q'] };
+    let mut content = Vec::with_capacity(target + 64);
+    while content.len() < target {
+        if rng.chance(1, 400) || (content.len() > 65_400 && content.len() < 65_700 && rng.chance(1, 6)) {
+            let p = &spec.patterns[rng.below(spec.patterns.len())];
+            content.extend_from_slice(p);
+        } else if utf8 {
+            let cs = ["q", "試", "Z", "\u{10fffe}"];
+            content.extend_from_slice(cs[rng.below(if spec.variant == Variant::Charwise && cs.len() > 3 { 3 } else { 3 })].as_bytes());
+        } else {
+            content.push(filler[rng.below(filler.len())]);
+        }
+    }
+    if spec.variant == Variant::Charwise && std::str::from_utf8(&content).is_err() {
+        content = String::from_utf8_lossy(&content).into_owned().into_bytes();
+    }
+    let nh = rng.range(1, 2);
+    let handles: Vec<HandleSpec> = (0..nh)
+        .map(|_| HandleSpec {
+            method: *rng.pick(&STD_METHODS),
+            stream: 0,
+            hint: if rng.chance(1, 2) { Hint::Truthful } else { Hint::Opaque },
+        })
+        .collect();
+    let mut events = vec![];
+    for h in 0..nh {
+        events.push(Ev::Open { handle: h });
+    }
+    let mut sent = 0;
+    while sent < content.len() {
+        let k = *rng.pick(&[1usize, 255, 4096, 8192, 65_535, 65_536, 70_000]);
+        events.push(Ev::Deliver { stream: 0, k });
+        sent += k;
+        for _ in 0..rng.range(0, 3) {
+            events.push(Ev::Poll { handle: rng.below(nh) });
+        }
+        if rng.chance(1, 40) {
+            events.push(Ev::Close { stream: 0 });
+        }
+    }
+    events.push(Ev::Close { stream: 0 });
+    for h in 0..nh {
+        events.push(Ev::Drain { handle: h });
+    }
+    Scenario { spec, streams: vec![content], handles, events }
 }
 
 /// Thorough tier: for one sampled (spec, content), every truncation point (every byte, or
